@@ -56,7 +56,7 @@ BOUNDS = {
         "C(3,3) ({-1,0,1}^4), C(2,2,2) ({-1,0,1}^6), C(2,2)~ *1e-3, T(2,2) *1e3; 3 assignments; components 1,2,3; dt factor "
         "0.5 and 1. Flux-magnitude axis {1e-300, 1e-30, 1e-17, 1e-12, 1, 1e12, 1e30, mixed per face}: "
         "T(1,1) and 1-d C(3) (all vectors x all assignments), C(2,1) (all vectors x 4 assignments; 1e-300, 1e-17, mixed), "
-        "C(2,2,2) single modifications; step part with q x 2^-60, 2^-1000, 2^100 (dt = CFL limit scales exactly). Purity: flux array per call, grid and "
+        "C(2,2,2) single modifications; embedded letters T(1,1)^gen, C(2,1)^gen2 (sel) and C(2,2)~^gen (step); step part with q x 2^-60, 2^-1000, 2^100 (dt = CFL limit scales exactly). Purity: flux array per call, grid and "
         "boundary object digest per assignment; reuse (second discretize on the same dictionary) on every 16th vector."
     ),
     "thorough": (
@@ -102,6 +102,10 @@ def cases(tier):
             out.append({"part": "sel", "grid": c21, "vec": "lex", "z": 7, "prefix": p, "bcset": "four", "comps": 1, "magscale": ms})
         out.append({"part": "sel", "grid": c222, "vec": "mod1", "base": 0, "bcset": "side", "comps": 1, "slice": [0, 1], "magscale": ms})
 
+    # 2-d grid embedded in a tilted plane of 3-d space
+    out.append({"part": "sel", "grid": dict(t11, embed="gen"), "vec": "lex", "z": 5, "prefix": [], "bcset": "all", "comps": 1})
+    out.append({"part": "sel", "grid": dict(c21, embed="gen2"), "vec": "lex", "z": 7, "prefix": [], "bcset": "four", "comps": 2})
+
     def pref(L, z):
         return [p for p in _prefixes(L) if sum(1 for v in p if v == 0) <= z]
 
@@ -142,6 +146,8 @@ def cases(tier):
         for comps in (1, 2, 3):
             out.append({"part": "step", "grid": spec, "coef": coef, "comps": comps})
     # tiny / huge flux magnitudes (powers of two, so dt = CFL limit scales in exact proportion)
+    for comps in (1, 2):
+        out.append({"part": "step", "grid": dict(c22, pert=[[4, [1, -1]]], embed="gen"), "coef": "pm2", "comps": comps})
     for spec, coef, e in ((dict(c22, pert=[[4, [1, -1]]]), "pm2", -60), ({"kind": "C", "n": [3, 2]}, "m1to2", -1000),
                           (t22, "pm2", 100), ({"kind": "C", "n": [3, 3]}, "tern", -60)):
         for comps in (1, 2):
